@@ -49,6 +49,17 @@ func schemaForType(typ reflect.Type, parents ...reflect.Type) (Schema, error) {
 		return s, nil
 	}
 
+	switch typ.Kind() {
+	case reflect.Struct, reflect.Array, reflect.Slice, reflect.Map, reflect.Pointer:
+		// Only these kinds can contain themselves (type S []S, type T struct{ Next *T }).
+		for _, parent := range parents {
+			if parent == typ {
+				return Schema{}, fmt.Errorf("type %s contains itself, which is not supported", typ)
+			}
+		}
+		parents = append(parents[:len(parents):len(parents)], typ)
+	}
+
 	// BigQuery makes every basic type nullable. We'll send null for the zero
 	// value if there's an "omitempty" tag.
 	switch typ.Kind() {
@@ -61,12 +72,7 @@ func schemaForType(typ reflect.Type, parents ...reflect.Type) (Schema, error) {
 	case reflect.String:
 		return Schema{Type: "string"}, nil
 	case reflect.Struct:
-		for _, parent := range parents {
-			if parent == typ {
-				return Schema{}, fmt.Errorf("type %s contains itself, which is not supported", typ)
-			}
-		}
-		return schemaForStruct(typ, append(parents, typ)...)
+		return schemaForStruct(typ, parents...)
 	case reflect.Array, reflect.Slice:
 		return schemaForArray(typ, parents...)
 	case reflect.Map:
